@@ -88,7 +88,7 @@ func VH_C18_golden_read() {
 	root := vLoadGolden(name)
 	LowercaseNames = name == "lower"
 	var rows []vGoldRow
-	vAssert("C18.golden.oracle", unmarshalJsonFile(root+"/oracle.json", &rows) == nil && len(rows) == 4)
+	vAssert("C18.golden.oracle", vReadJSON(root+"/oracle.json", &rows) == nil && len(rows) == 4)
 	db := Open(root + "/db")
 	n, err := db.Count(&vGold{})
 	vAssert("C18.golden.count", err == nil && n == len(rows))
